@@ -120,8 +120,21 @@ impl<B: Backend> VecZnxBig<DeviceBuf<B>, B> {
     }
 }
 
-impl<D: Data, B: Backend> VecZnxBig<D, B> {
+impl<D: DataRef, B: Backend> VecZnxBig<D, B> {
+    /// Constructs a `VecZnxBig` from raw parts.
+    ///
+    /// # Panics
+    ///
+    /// Panics if the buffer holds fewer than `n * cols * size` scalars or is not aligned for the scalar type.
     pub fn from_data(data: D, n: usize, cols: usize, size: usize) -> Self {
+        super::znx_base::assert_from_data_fits(
+            "VecZnxBig",
+            data.as_ref(),
+            n,
+            cols.checked_mul(size),
+            size_of::<B::ScalarBig>(),
+            align_of::<B::ScalarBig>(),
+        );
         Self {
             data,
             n,
